@@ -19,6 +19,8 @@ def run(ctx):
     n_hist = 4 if ctx.quick else 30
     for i in range(n_hist):
         workloads.random_history(ctx, srv, workloads.CollsGen(ctx.rnd), n=1500 if ctx.quick else 5000, label='rand%d' % i)
+    # integer positions written in spellings the reference refuses ('+5', '007', '-0'): open finding lenient_int
+    workloads.lenient_int_history(ctx, srv, 'colls')
     ctx.extra_cov['distinct_cases'] = len(paths) + n_hist
 
 
